@@ -742,6 +742,83 @@ Proof.
   repeat split; auto. rewrite SE, SE1. destruct (sess s) as [[|]|]; reflexivity.
 Qed.
 
+(* ---- truncation in general ---------------------------------------------------------------- *)
+Lemma send_error_exn d s s' x : send_error d s = (s', x) -> (exists z, x = XSock z) \/ x = XLocal d.
+Proof.
+  unfold send_error. intros H.
+  destruct (flush s) as [s1 e1]. destruct e1; [inv H; eauto|].
+  destruct (send_rec (WAlert 2 d) (set_bufw false s1)) as [s3 e3]. destruct e3; [inv H; eauto|].
+  destruct (shutdown false s3) as [s4 e4]. inv H. destruct e4; eauto.
+Qed.
+
+Lemma alert_branch_exn l d s s' x : alert_branch l d s = (s', x) -> (exists z, x = XSock z) \/ x = XRemote d.
+Proof.
+  unfold alert_branch. intros H.
+  destruct (shutdown (d =? 0) _) as [s2 e]. inv H. destruct e; eauto.
+Qed.
+
+Lemma get_msg_q_read_facts : forall q s s' r, get_msg_q CRead q s = (s', r) ->
+  match r with
+  | Val _ => closed s' = closed s /\ incl (inq s') q
+  | Exc (XRemote d) => exists l, In (IAlert l d) q
+  | _ => True
+  end.
+Proof.
+  induction q as [|i q IH]; intros s s' r H; cbn [get_msg_q] in H.
+  - inv H. unfold no_input. destruct (negb _); [exact I|]. destruct (rxe _); exact I.
+  - destruct i as [d|l d|b].
+    + destruct d.
+      * apply IH in H. destruct r as [i|x| |]; auto.
+        -- cbn in H. destruct H as (A & B). split; [exact A|]. intros y Y. right. apply B. exact Y.
+        -- destruct x; auto. destruct H as (l & L). exists l. right. exact L.
+      * inv H. cbn. split; [reflexivity|]. intros y Y. right. exact Y.
+    + destruct (alert_branch l d (set_inq q s)) as [s1 x] eqn:A. inv H.
+      apply alert_branch_exn in A. destruct A as [(z & ->)| ->]; [exact I|]. exists l. left. reflexivity.
+    + destruct (b && tls13 (set_inq q s)).
+      * inv H. cbn. split; [reflexivity|]. intros y Y. right. exact Y.
+      * destruct (send_error 10 (set_inq q s)) as [s1 x] eqn:A. inv H.
+        apply send_error_exn in A. destruct A as [(z & ->)| ->]; exact I.
+Qed.
+
+Lemma read_loop_closes_only_on_close_notify mn : forall f t s s' u,
+  ign s = false -> closed s = false -> read_loop f t mn s = (s', Val u) -> closed s' = true ->
+  exists l, In (IAlert l 0) (inq s).
+Proof.
+  induction f as [|f IH]; intros t s s' u IG C H C'.
+  - cbn in H. discriminate.
+  - rewrite read_loop_S in H.
+    destruct (((zlen (rbuf s) <? mn) || (is_nil (rbuf s) && t)) && negb (closed s)); [|inv H; congruence].
+    destruct (get_msg CRead s) as [s1 r1] eqn:G.
+    pose proof (get_msg_R _ _ _ _ G) as (_ & (IG1 & _) & _ & _).
+    unfold get_msg in G. apply get_msg_q_read_facts in G.
+    destruct r1 as [i|x| |]; try discriminate.
+    + destruct G as (C1 & INC).
+      assert (exists l, In (IAlert l 0) (inq s1)) as (l & L).
+      { destruct i; [eapply (IH false (set_rbuf (rbuf s1 ++ d) s1)); eauto; cbn; congruence
+                    |eapply (IH false s1); eauto; congruence
+                    |eapply (IH false s1); eauto; congruence]. }
+      exists l. apply INC. exact L.
+    + destruct x; try discriminate.
+      * destruct (ign s1) eqn:X; [congruence|discriminate].
+      * destruct (desc =? 0) eqn:D; [|discriminate]. apply Z.eqb_eq in D. subst. exact G.
+Qed.
+
+(* truncation is never mistaken for the end of data, in general: whenever a read on an open
+   connection returns normally (no exception) and leaves the connection closed while
+   ignoreAbruptClose is off, a close_notify alert was among the messages that had arrived *)
+Lemma read_closes_only_on_close_notify s mx mn s' d :
+  ign s = false -> closed s = false -> step s (URead mx mn) = (s', ORet d) -> closed s' = true ->
+  exists l, In (IAlert l 0) (inq s).
+Proof.
+  intros IG C H C'. cbn [step] in H. unfold do_read in H.
+  destruct (read_loop (S (S (length (inq s)))) true mn s) as [s1 r] eqn:L.
+  destruct r as [u|x| |].
+  - inv H. cbn in C'. eapply read_loop_closes_only_on_close_notify; eauto.
+  - apply raise_after_shutdown_spec in H. destruct H as (_ & _ & (y & Y)). discriminate.
+  - inv H.
+  - inv H.
+Qed.
+
 (* ---- transport faults inside a handshake -------------------------------------------------- *)
 Definition rx_dead (s : st) : Prop := sock_open s = true /\ rxe s <> RxOpen.
 Definition tx_dead (s : st) (e : Z) : Prop := sock_open s = true /\ exists k, txf s = Some (k, e) /\ k <= 0.
